@@ -3,6 +3,7 @@
 //! (`{"i": input term, "o": observed output term, "tags": [...], "nt": bool}`).
 //! The Coq side (theories/Corr_*.v) evaluates the model on the same inputs and compares.
 mod e_builder;
+mod e_codec;
 mod e_convert;
 mod e_hasher;
 mod e_incoming;
@@ -30,6 +31,8 @@ fn main() {
         "convert" => e_convert::run(seed, n, tier),
         "builder" => e_builder::run(seed, n, tier),
         "hasher" => e_hasher::run(seed, n, tier),
+        "codec" => e_codec::run(seed, n, tier),
+        "decodeserver" => e_codec::decode_server(),
         "incoming" => e_incoming::run(seed, n, tier),
         _ => {
             eprintln!("unknown engine {engine}");
